@@ -149,6 +149,59 @@ def g_case(p, o):
                   g_pair(g_nat(out), g_bool(problem)))
 
 
+# ---- where the options come from: the pyproject.toml that `black <file>` itself would use for the test file - the nearest directory above the file whose
+# pyproject.toml has a [tool.black] table - wherever the session is started from (real sessions)
+WS_TEST = ("from inline_snapshot import snapshot\n\n\ndef test_a():\n    assert [111111, 222222, 333333, 444444, 555555, 666666, 777777] == snapshot([111111, 222222])\n\n\n"
+           "def test_b():\n    assert {'alpha': 'value one', 'beta': 'value two', 'gamma': 'three'} == snapshot({'alpha': 'x'})\n")
+WS_LAYOUTS = [
+    # (name, files besides the test file, path of the test file, pyproject text whose [tool.black] applies)
+    ("workspace: black options in the root, a metadata-only pyproject.toml in the package",
+     {"pyproject.toml": "[tool.black]\nline-length = 60\n", "pkg/pyproject.toml": "[project]\nname = 'pkg'\nversion = '1'\n"}, "pkg/test_w.py", "[tool.black]\nline-length = 60\n"),
+    ("single project", {"pyproject.toml": "[tool.black]\nline-length = 60\n"}, "tests/test_w.py", "[tool.black]\nline-length = 60\n"),
+    ("nested project with its own black options", {"pyproject.toml": "[tool.black]\nline-length = 120\n", "sub/pyproject.toml": "[tool.black]\nline-length = 50\n"}, "sub/test_w.py",
+     "[tool.black]\nline-length = 50\n"),
+]
+WS_STARTS = ("project root", "directory of the test file", "outside the project")
+
+
+def run_ws(item):
+    import shutil
+    (name, files, test_path, applies), start = item
+    outer = driver.scratch_dir("c20ws-")
+    try:
+        d = outer / "proj"
+        src = fmt(WS_TEST, applies)
+        driver.write_project(d, dict(files, **{test_path: src}))
+        tp = d / test_path
+        if start == "project root":
+            cwd, arg = d, test_path
+        elif start == "directory of the test file":
+            cwd, arg = tp.parent, tp.name
+        else:
+            cwd, arg = outer, str(tp)
+        r = driver.run_pytest(d, ["--inline-snapshot=fix", arg], cwd=cwd)
+        after = tp.read_text()
+        return {"name": name, "start": start, "before": src, "after": after, "clean_after": fmt(after, applies) == after, "rc": r["rc"], "tail": (r["stdout"] + r["stderr"])[-800:],
+                "infra": r.get("infra_error")}
+    finally:
+        shutil.rmtree(outer, ignore_errors=True)
+
+
+def check_ws(ctx):
+    from ..core import tmap
+    items = [(lay, st) for lay in WS_LAYOUTS for st in WS_STARTS]
+    for (lay, st), o in zip(items, tmap(run_ws, items)):
+        ctx.count(("workspace", lay[0], st), True)
+        if o["infra"]:
+            continue
+        if o["after"] == o["before"]:
+            ctx.report(f"C20 (layout {lay[0]}, session started from the {st}): the approved fix was not applied (exit status {o['rc']}): {o['tail'][-300:]}", {"kind": "ws", "layout": lay[0], "start": st})
+        elif not o["clean_after"]:
+            ctx.report(f"C20 oracle: layout `{lay[0]}`, session started from the {st}: the file was formatter-clean (black with the options that apply to it: "
+                       f"{lay[3].splitlines()[1]}) before the rewrite and is not afterwards", {"kind": "ws", "layout": lay[0], "start": st, "after": o["after"]})
+    ctx.coverage["oracle"]["project_layout_sessions"] = len(items)
+
+
 def run(ctx: Ctx):
     ctx.coverage["rule"] = (
         "test files with 1-5 snapshot sites over the rich value universe (deep values that force re-wrapping), made formatter-clean first in 2/3 of the cases, "
@@ -189,10 +242,15 @@ def run(ctx: Ctx):
         ctx.report(f"Model/Format.v and implementation differ (setup {p['setup']}, clean_before={o.get('clean_before')}, problems={bool(o['problems'])})",
                    {"kind": "case", "source": p["source"], "flags": p["flags"], "setup": p["setup"], "pyproject": p["pyproject"], "make_clean": p["make_clean"]}, no_input=True, kind="correspondence")
     ctx.sample({"setup": cases[0]["setup"], "pyproject": cases[0]["pyproject"], "flags": cases[0]["flags"], "clean_before": outs[0].get("clean_before"), "clean_after": outs[0].get("clean_after")})
+    check_ws(ctx)
 
 
 def replay(ctx: Ctx, data):
     c = data["case"]
+    if c.get("kind") == "ws":
+        o = run_ws(([l for l in WS_LAYOUTS if l[0] == c["layout"]][0], c["start"]))
+        print(o["after"], o["clean_after"])
+        return o["after"] != o["before"] and o["clean_after"]
     p = {"source": c["source"], "flags": tuple(c["flags"]), "setup": c["setup"], "pyproject": c["pyproject"], "make_clean": c["make_clean"],
          "strip_final_newline": c.get("strip_final_newline")}
     o = run_case(p)
